@@ -19,7 +19,18 @@ import (
 	"strings"
 
 	"gorm.io/gorm"
+	"gorm.io/gorm/schema"
 )
+
+// a model with TWO soft-delete columns (only the first one's filter is added: the statement-wide marker stops the second)
+type WSoft2 struct {
+	ID         uint `gorm:"primaryKey"`
+	A          *int
+	B          *int
+	S          *string
+	DeletedAt  gorm.DeletedAt
+	ArchivedAt gorm.DeletedAt
+}
 
 type c09Call struct {
 	Desc  string
@@ -100,11 +111,35 @@ type c09Fin struct {
 	Run  func(db *gorm.DB, soft bool, key int) *gorm.DB
 }
 
+// c09Kind: the table used by a case — 0 plain, 1 soft-delete, 2 two soft-delete columns
+var c09Kind = 0
+
 func c09Model(soft bool, key int) interface{} {
+	if c09Kind == 2 {
+		return &WSoft2{ID: uint(key)}
+	}
 	if soft {
 		return &WSoft{ID: uint(key)}
 	}
 	return &WPlain{ID: uint(key)}
+}
+
+// c09SliceModel: a non-empty slice of records WITHOUT primary keys (a model value without primary key)
+func c09SliceModel(soft bool) interface{} {
+	if c09Kind == 2 {
+		return &[]WSoft2{{}, {}}
+	}
+	if soft {
+		return &[]WSoft{{}, {}}
+	}
+	return &[]WPlain{{}, {}}
+}
+
+func c09Table(soft bool) string {
+	if c09Kind == 2 {
+		return schema.NamingStrategy{}.TableName("WSoft2")
+	}
+	return tableOf(soft)
 }
 
 func c09Finishers() []c09Fin {
@@ -128,10 +163,31 @@ func c09Finishers() []c09Fin {
 		{"Delete(inline empty)", func(db *gorm.DB, soft bool, key int) *gorm.DB {
 			return db.Delete(c09Model(soft, key), map[string]interface{}{})
 		}},
+		// model values that are slices of key-less records (only meaningful with key == 0)
+		{"Update(slice model)", func(db *gorm.DB, soft bool, key int) *gorm.DB {
+			if key != 0 {
+				return db.Model(c09Model(soft, key)).Update("b", 91)
+			}
+			return db.Model(c09SliceModel(soft)).Update("b", 91)
+		}},
+		{"UpdateColumns(slice model)", func(db *gorm.DB, soft bool, key int) *gorm.DB {
+			if key != 0 {
+				return db.Model(c09Model(soft, key)).UpdateColumns(map[string]interface{}{"b": 91})
+			}
+			return db.Model(c09SliceModel(soft)).UpdateColumns(map[string]interface{}{"b": 91})
+		}},
+		{"Delete(slice)", func(db *gorm.DB, soft bool, key int) *gorm.DB {
+			if key != 0 {
+				return db.Delete(c09Model(soft, key))
+			}
+			return db.Delete(c09SliceModel(soft))
+		}},
 	}
 }
 
 type c09Case struct {
+	Kind     int      `json:"model_kind"` // 0 plain, 1 soft-delete, 2 two soft-delete columns
+	Pre      string   `json:"earlier_finisher_on_same_statement,omitempty"`
 	Soft     bool     `json:"soft"`
 	Allow    string   `json:"allow_global_update"` // off | config | session
 	Key      int      `json:"model_key"`
@@ -140,12 +196,14 @@ type c09Case struct {
 	Fin      string   `json:"finisher"`
 }
 
-func tableDump(db *gorm.DB, soft bool) string {
+func tableDump(db *gorm.DB, soft bool) string { return tableDumpOf(db, tableOf(soft)) }
+
+func tableDumpOf(db *gorm.DB, table string) string {
 	var rows []map[string]interface{}
-	db.Session(&gorm.Session{NewDB: true}).Unscoped().Table(tableOf(soft)).Order("id").Find(&rows)
+	db.Session(&gorm.Session{NewDB: true}).Unscoped().Table(table).Order("id").Find(&rows)
 	var sb strings.Builder
 	for _, r := range rows {
-		fmt.Fprintf(&sb, "%v|%v|%v|%v|%v;", r["id"], r["a"], r["b"], r["s"], r["deleted_at"])
+		fmt.Fprintf(&sb, "%v|%v|%v|%v|%v|%v;", r["id"], r["a"], r["b"], r["s"], r["deleted_at"], r["archived_at"])
 	}
 	return sb.String()
 }
@@ -167,9 +225,22 @@ func c09Run(db *gorm.DB, rec *Recorder, c c09Case, calls []c09Call, fin c09Fin) 
 	} else {
 		base = base.Session(&gorm.Session{})
 	}
-	before := tableDump(db, c.Soft)
-	rec.Reset()
+	c09Kind = c.Kind
+	before := tableDumpOf(db, c09Table(c.Soft))
 	h := base
+	if c.Pre != "" {
+		// an earlier condition-free finisher on the SAME statement (a handle with clone = 0 keeps its statement)
+		h = h.Model(c09Model(c.Soft, 0))
+		var n int64
+		switch c.Pre {
+		case "count":
+			h.Count(&n)
+		case "pluck":
+			var ids []int
+			h.Pluck("id", &ids)
+		}
+	}
+	rec.Reset()
 	if c.Unscoped {
 		h = h.Unscoped()
 	}
@@ -178,7 +249,7 @@ func c09Run(db *gorm.DB, rec *Recorder, c c09Case, calls []c09Call, fin c09Fin) 
 	}
 	res := fin.Run(h, c.Soft, c.Key)
 	events = rec.Snapshot()
-	after := tableDump(db, c.Soft)
+	after := tableDumpOf(db, c09Table(c.Soft))
 	return res.Error, events, before != after
 }
 
@@ -191,16 +262,32 @@ func init() {
 			rec *Recorder
 		}
 		worlds := map[string]world{}
-		open := func(soft bool, cfgAllow bool) world {
-			k := fmt.Sprint(soft, cfgAllow)
+		seed2 := func(db *gorm.DB) {
+			if err := db.AutoMigrate(&WSoft2{}); err != nil {
+				panic(err)
+			}
+			for _, x := range genRows(rand.New(rand.NewSource(7)), 6, true) {
+				rec := WSoft2{ID: uint(x.ID), A: x.A, B: x.B, S: x.S}
+				if x.Deleted {
+					rec.DeletedAt = gorm.DeletedAt{Time: fixedNow.Add(-3600e9), Valid: true}
+				}
+				db.Create(&rec)
+			}
+		}
+		open := func(kind int, cfgAllow bool) world {
+			k := fmt.Sprint(kind, cfgAllow)
 			if w, ok := worlds[k]; ok {
 				return w
 			}
 			rr := rows
-			if soft {
+			if kind >= 1 {
 				rr = genRows(rand.New(rand.NewSource(7)), 6, true)
 			}
-			db, rec, _ := openW(rr, soft, &gorm.Config{AllowGlobalUpdate: cfgAllow})
+			db, rec, _ := openW(rr, kind >= 1, &gorm.Config{AllowGlobalUpdate: cfgAllow})
+			if kind == 2 {
+				seed2(db)
+				rec.Reset()
+			}
 			worlds[k] = world{db, rec}
 			return worlds[k]
 		}
@@ -233,17 +320,26 @@ func init() {
 			}
 			ops, pend = nil, nil
 		}
-		restore := func(w world, soft bool, before string) {
-			if tableDump(w.db, soft) != before {
+		restore := func(w world, kind int, before string) {
+			soft := kind >= 1
+			c09Kind = kind
+			if tableDumpOf(w.db, c09Table(soft)) != before {
 				// an executed global update/delete (AllowGlobalUpdate or a keyed row): re-seed
+				if kind == 2 {
+					w.db.Session(&gorm.Session{AllowGlobalUpdate: true}).Unscoped().Delete(&WSoft2{})
+					seed2(w.db)
+					return
+				}
 				w.db.Session(&gorm.Session{AllowGlobalUpdate: true}).Unscoped().Delete(modelOf(soft))
 				rr := genRows(rand.New(rand.NewSource(7)), 6, soft)
 				seedRows(w.db, rr, soft)
 			}
 		}
-		one := func(soft bool, allow string, key int, unscoped bool, calls []c09Call, fin c09Fin) {
-			w := open(soft, allow == "config")
-			c := c09Case{Soft: soft, Allow: allow, Key: key, Unscoped: unscoped, Fin: fin.Name}
+		one := func(kind int, pre string, allow string, key int, unscoped bool, calls []c09Call, fin c09Fin) {
+			soft := kind >= 1
+			w := open(kind, allow == "config")
+			c09Kind = kind
+			c := c09Case{Kind: kind, Pre: pre, Soft: soft, Allow: allow, Key: key, Unscoped: unscoped, Fin: fin.Name}
 			var steps []interface{}
 			for _, cl := range calls {
 				c.Calls = append(c.Calls, cl.Desc)
@@ -251,7 +347,7 @@ func init() {
 					steps = append(steps, cl.Step)
 				}
 			}
-			before := tableDump(w.db, soft)
+			before := tableDumpOf(w.db, c09Table(soft))
 			err, events, changed := c09Run(w.db, w.rec, c, calls, fin)
 			rejected := errors.Is(err, gorm.ErrMissingWhereClause)
 			nExec := 0
@@ -262,7 +358,7 @@ func init() {
 			}
 			r.Case("guard", fmt.Sprint(c), true)
 			r.H("guard.finisher", fin.Name)
-			r.H("guard.decision", fmt.Sprintf("soft=%v allow=%s key=%v unscoped=%v -> rejected=%v", soft, allow, key != 0, unscoped, rejected))
+			r.H("guard.decision", fmt.Sprintf("kind=%d pre=%q allow=%s key=%v unscoped=%v -> rejected=%v", kind, pre, allow, key != 0, unscoped, rejected))
 			// ---- the property
 			if allow == "off" && key == 0 {
 				// blocking side: must be rejected, nothing sent, nothing changed
@@ -279,7 +375,7 @@ func init() {
 				r.Violate(Violation{Kind: "e2e", Suite: "guard", Input: c,
 					Observed: map[string]interface{}{"statements_sent": nExec, "table_changed": changed}, Expected: "a rejected operation executes no statement"})
 			}
-			restore(w, soft, before)
+			restore(w, kind, before)
 			// ---- the tie
 			var softJ, pkJ interface{}
 			if soft {
@@ -291,36 +387,43 @@ func init() {
 			if steps == nil {
 				steps = []interface{}{}
 			}
-			ops = append(ops, []interface{}{"guard", steps, softJ, unscoped, pkJ, allow != "off"})
+			ops = append(ops, []interface{}{"guard", steps, softJ, unscoped, pkJ, allow != "off", pre != ""})
 			pend = append(pend, pending{c, rejected})
 			if len(ops) >= 3000 {
 				flush()
 			}
 		}
-		for _, soft := range []bool{false, true} {
-			calls := c09Calls(soft)
-			for _, allow := range []string{"off", "config", "session"} {
-				for _, key := range []int{0, 3} {
-					for _, unscoped := range []bool{false, true} {
-						for _, fin := range fins {
-							// no call at all, every single call
-							one(soft, allow, key, unscoped, nil, fin)
-							for _, a := range calls {
-								one(soft, allow, key, unscoped, []c09Call{a}, fin)
-							}
-							// pairs: all of them in the thorough tier, a seeded sample otherwise
-							for i, a := range calls {
-								for j, b := range calls {
-									if tier != "thorough" && rng.Intn(40) != 0 {
+		for _, kind := range []int{0, 1, 2} {
+			calls := c09Calls(kind >= 1)
+			for _, pre := range []string{"", "count", "pluck"} {
+				for _, allow := range []string{"off", "config", "session"} {
+					for _, key := range []int{0, 3} {
+						if pre != "" && (key != 0 || allow != "off") {
+							continue // statement reuse is explored on the blocking side
+						}
+						for _, unscoped := range []bool{false, true} {
+							for _, fin := range fins {
+								// no call at all, every single call
+								one(kind, pre, allow, key, unscoped, nil, fin)
+								for _, a := range calls {
+									if pre != "" && a.Step == nil && rng.Intn(3) != 0 {
 										continue
 									}
-									_, _ = i, j
-									one(soft, allow, key, unscoped, []c09Call{a, b}, fin)
+									one(kind, pre, allow, key, unscoped, []c09Call{a}, fin)
 								}
-							}
-							if expired() {
-								flush()
-								return
+								// pairs: all of them in the thorough tier (first-use statements), a seeded sample otherwise
+								for _, a := range calls {
+									for _, b := range calls {
+										if tier != "thorough" && rng.Intn(90) != 0 || pre != "" && rng.Intn(4) != 0 {
+											continue
+										}
+										one(kind, pre, allow, key, unscoped, []c09Call{a, b}, fin)
+									}
+								}
+								if expired() {
+									flush()
+									return
+								}
 							}
 						}
 					}
@@ -330,7 +433,8 @@ func init() {
 		flush()
 		r.Exhaustive = true
 		r.Note("blocking side enumerated exhaustively: %d condition-free calls (9 empty forms x Where/Not/Or + 6 other chain methods), "+
-			"none/one call and pairs (all pairs in thorough, 1/40 sample in quick) x 7 finishers x plain/soft x AllowGlobalUpdate off/config/session x key zero/set x Unscoped", len(c09Calls(false)))
+			"none/one call and pairs (all pairs in thorough, 1/90 sample in quick) x 10 finishers (struct and slice model values) x plain/soft-delete/two-soft-delete-columns x "+
+			"first use or reuse of the statement after Count/Pluck x AllowGlobalUpdate off/config/session x key zero/set x Unscoped", len(c09Calls(false)))
 	})
 
 	// admitting side: a chain that supplies a condition is never rejected with ErrMissingWhereClause
@@ -367,6 +471,12 @@ func init() {
 		rr := genRows(rand.New(rand.NewSource(7)), 6, c.Soft)
 		db, rec, sqlDB := openW(rr, c.Soft, &gorm.Config{AllowGlobalUpdate: c.Allow == "config"})
 		defer sqlDB.Close()
+		if c.Kind == 2 {
+			db.AutoMigrate(&WSoft2{})
+			for _, x := range rr {
+				db.Create(&WSoft2{ID: uint(x.ID), A: x.A, B: x.B, S: x.S})
+			}
+		}
 		var calls []c09Call
 		all := c09Calls(c.Soft)
 		for _, d := range c.Calls {
